@@ -5,11 +5,13 @@
   The mirrored generator (SFModel/BlocksShift.lean) is shown to act on the list of
   `(dtype, column)` as the plain list operation `shiftColsSpec` — rotate the column list by `c` and
   every column by `r`; shifting = the same with the vacated positions holding the fill — for EVERY
-  block layout, all integers `r`, `c` … EXCEPT that the code as it is yields too many columns for
+  block layout with at least one row and one column, all integers `r`, `c`, both wrap modes
+  (`shift_refines`, `shift_wf_shape`, `layout_unobservable_shift`).  Zero-sized axes raise
+  ZeroDivisionError (`shift_zero_axis`, `array_shift_empty`, `series_roll_empty`; not repaired).
+  The code before /repo commit ad4f5b0 (`TB.shiftBlocksPinned`) yielded too many columns for
   `wrap = False` and a column shift outside `ColShiftOk` (`-n < c ≤ n` or a positive multiple of
-  `n`): `Frame.shift(columns=k)` then raises ErrorInitFrame (`shift_overshoot`,
-  `shift_refines_counterexample`), and that zero-sized axes raise ZeroDivisionError
-  (`shift_zero_axis`, `array_shift_empty`, `series_roll_empty`).
+  `n`): `Frame.shift(columns=k)` raised ErrorInitFrame (`shiftPinned_overshoot`,
+  `shiftPinned_ok_iff`, `shiftPinned_overshoot_counterexample`).
 -/
 import SFModel.BlocksShiftLemmas2
 import SFModel.BlocksShiftBridge
@@ -116,145 +118,77 @@ theorem tbS'_wf : tbS'.WF := by simp [tbS', TB.WF, Block.RowsOk, Block.colsOf, B
 def resEx : DT → DT → DT := fun a b => if a = b then a else "O"
 def convEx : DT → DT → Nat → Nat := fun _ _ v => v
 
-/-- REFINEMENT. For every well-formed layout with at least one row and one column, all integers
-    `r`, `c`: rolling (`wrap`), and shifting with a column shift the code handles (`ColShiftOk`),
-    succeed, and the columns and dtypes of the result are the specification applied to the columns
-    and dtypes of the input. -/
+/-- REFINEMENT, at full strength. For every well-formed layout with at least one row and one column,
+    ALL integers `r`, `c`, both wrap modes: rolling and shifting succeed, and the columns and dtypes
+    of the result are the specification applied to the columns and dtypes of the input. (Since /repo
+    commit ad4f5b0 the column shifts with `|c| ≥ n` are covered as well; the code before it is
+    `shiftBlocksPinned`, see `shiftPinned_overshoot_counterexample` below.) -/
 theorem shift_refines (resolve : DT → DT → DT) (conv : DT → DT → α → α)
     (tb : TB α) (hwf : tb.WF) (hr : 0 < tb.rows) (hc : 0 < tb.ncols)
-    (r c : Int) (wrap : Bool) (fill : α) (fillDT : DT) (hok : wrap = true ∨ ColShiftOk tb.ncols c) :
+    (r c : Int) (wrap : Bool) (fill : α) (fillDT : DT) :
     ∃ res, tb.frameShift resolve conv r c wrap fill fillDT = .ok res ∧
       res.dtypes.zip res.cols =
         shiftColsSpec resolve conv tb.rows (tb.dtypes.zip tb.cols) r c wrap fill fillDT := by
-  obtain ⟨bs, h1, _, h3⟩ := tb.frameShift_general resolve conv hwf hr hc r c wrap fill fillDT
+  obtain ⟨bs, _, h1, _, h3⟩ := tb.frameShift_general resolve conv true hwf hr hc r c wrap fill fillDT
   have hpos : 0 < (colsDT tb.blocks).length := by rw [← tb.ncols_eq_colsDT]; exact hc
-  have hok' : wrap = true ∨ ColShiftOk (colsDT tb.blocks).length c := by rw [← tb.ncols_eq_colsDT]; exact hok
   have hlen : (colsDT bs).length = tb.ncols := by
-    rw [h1, List.length_map, walkCols_length_ok _ c wrap _ hpos hok', ← tb.ncols_eq_colsDT]
+    rw [h1, List.length_map, walkCols_length _ c wrap _ hpos, ← tb.ncols_eq_colsDT]
   refine ⟨⟨tb.rows, bs⟩, ?_, ?_⟩
-  · rw [h3, if_neg (by simp [hlen])]
+  · unfold TB.frameShift; rw [h3, if_neg (by simp [hlen])]
   · rw [← TB.colsDT_eq_zip, ← TB.colsDT_eq_zip, h1]
     unfold shiftColsSpec
     cases wrap with
-    | true => simp only [if_true]; rw [walkCols_roll _ c _ hpos]
+    | true => simp only [if_true]; rw [walkCols_roll true _ c _ hpos]
     | false =>
       simp only [Bool.false_eq_true, if_false]
-      rcases hok' with h | h
-      · cases h
-      · rw [walkCols_shift _ c _ hpos h]
+      rw [walkCols_shift _ c _ hpos]
 
-/-- the same theorem under the project's naming convention for statements that hold under an extra
-    hypothesis only: the FULL statement (no `hok`) is false for the code as it is, see
-    `shift_refines_counterexample` / `shift_overshoot` / `shift_ok_iff`; the hypothesis is exact. -/
-theorem shift_refines_partial (resolve : DT → DT → DT) (conv : DT → DT → α → α)
-    (tb : TB α) (hwf : tb.WF) (hr : 0 < tb.rows) (hc : 0 < tb.ncols)
-    (r c : Int) (wrap : Bool) (fill : α) (fillDT : DT) (hok : wrap = true ∨ ColShiftOk tb.ncols c) :
-    ∃ res, tb.frameShift resolve conv r c wrap fill fillDT = .ok res ∧
-      res.dtypes.zip res.cols =
-        shiftColsSpec resolve conv tb.rows (tb.dtypes.zip tb.cols) r c wrap fill fillDT :=
-  shift_refines resolve conv tb hwf hr hc r c wrap fill fillDT hok
-
-example : tbS.WF ∧ 0 < tbS.rows ∧ 0 < tbS.ncols ∧ ColShiftOk tbS.ncols (-2) ∧
+example : tbS.WF ∧ 0 < tbS.rows ∧ 0 < tbS.ncols ∧
     (tbS.frameShift resEx convEx 1 (-2) false 0 "i").map TB.cols = .ok [[0, 3], [0, 0], [0, 0]] ∧
-    (tbS.frameShift resEx convEx 3 4 true 0 "i").map TB.cols = .ok [[6, 3], [4, 1], [5, 2]] :=
-  ⟨tbS_wf, by decide, by decide, by decide, by decide, by decide⟩
+    (tbS.frameShift resEx convEx 3 4 true 0 "i").map TB.cols = .ok [[6, 3], [4, 1], [5, 2]] ∧
+    -- every column shifted out: the all-fill frame (raised ErrorInitFrame before the repair)
+    (tbS.frameShift resEx convEx 0 4 false 0 "i").map TB.cols = .ok [[0, 0], [0, 0], [0, 0]] ∧
+    (tbS.frameShift resEx convEx 1 (-3) false 0 "i").map TB.cols = .ok [[0, 0], [0, 0], [0, 0]] ∧
+    (tbS.shiftBlocks resEx convEx 0 7 false 0 "i").map (List.map Block.width) = .ok [3] :=
+  ⟨tbS_wf, by decide, by decide, by decide, by decide, by decide, by decide, by decide⟩
 
-/-- The result is well-formed and has the shape of the input. -/
+/-- The result is well-formed and has the shape of the input — all `r`, `c`, both wrap modes. -/
 theorem shift_wf_shape (resolve : DT → DT → DT) (conv : DT → DT → α → α)
     (tb : TB α) (hwf : tb.WF) (hr : 0 < tb.rows) (hc : 0 < tb.ncols)
-    (r c : Int) (wrap : Bool) (fill : α) (fillDT : DT) (hok : wrap = true ∨ ColShiftOk tb.ncols c) :
+    (r c : Int) (wrap : Bool) (fill : α) (fillDT : DT) :
     ∃ res, tb.frameShift resolve conv r c wrap fill fillDT = .ok res ∧
       res.WF ∧ res.rows = tb.rows ∧ res.ncols = tb.ncols ∧
       res.cols.length = tb.ncols ∧ (∀ col ∈ res.cols, col.length = tb.rows) := by
-  obtain ⟨bs, h1, h2, h3⟩ := tb.frameShift_general resolve conv hwf hr hc r c wrap fill fillDT
+  obtain ⟨bs, _, h1, h2, h3⟩ := tb.frameShift_general resolve conv true hwf hr hc r c wrap fill fillDT
   have hpos : 0 < (colsDT tb.blocks).length := by rw [← tb.ncols_eq_colsDT]; exact hc
-  have hok' : wrap = true ∨ ColShiftOk (colsDT tb.blocks).length c := by rw [← tb.ncols_eq_colsDT]; exact hok
   have hlen : (colsDT bs).length = tb.ncols := by
-    rw [h1, List.length_map, walkCols_length_ok _ c wrap _ hpos hok', ← tb.ncols_eq_colsDT]
+    rw [h1, List.length_map, walkCols_length _ c wrap _ hpos, ← tb.ncols_eq_colsDT]
   have hn : (TB.mk tb.rows bs).ncols = tb.ncols := by rw [TB.ncols_eq_colsDT]; exact hlen
   refine ⟨⟨tb.rows, bs⟩, ?_, h2, rfl, hn, ?_, ?_⟩
-  · rw [h3, if_neg (by simp [hlen])]
+  · unfold TB.frameShift; rw [h3, if_neg (by simp [hlen])]
   · rw [cols_length]; exact hn
   · exact (cols_wf _ h2).2.1
 
-example : (tbS.frameShift resEx convEx (-1) 3 false 0 "f").map (fun res => (res.rows, res.ncols, res.cols))
+example : (tbS.frameShift resEx convEx (-1) 5 false 0 "f").map (fun res => (res.rows, res.ncols, res.cols))
     = .ok (2, 3, [[0, 0], [0, 0], [0, 0]]) := by decide
 
-/-- EXACTNESS OF THE HYPOTHESIS / the defect: for `wrap = False` and every column shift outside
-    `ColShiftOk` (`c ≤ -n`, or `c > n` not a multiple of `n`) the generator yields MORE than `n`
-    columns, for every layout, and `Frame.shift` raises ErrorInitFrame. -/
-theorem shift_overshoot (resolve : DT → DT → DT) (conv : DT → DT → α → α)
-    (tb : TB α) (hwf : tb.WF) (hr : 0 < tb.rows) (hc : 0 < tb.ncols)
-    (r c : Int) (fill : α) (fillDT : DT) (hbad : ¬ ColShiftOk tb.ncols c) :
-    (∃ bs, tb.shiftBlocks resolve conv r c false fill fillDT = .ok bs ∧
-      tb.ncols < (bs.map Block.width).sum) ∧
-    tb.frameShift resolve conv r c false fill fillDT = .error .init := by
-  obtain ⟨bs, g1, _, g3⟩ := tb.shiftBlocks_general resolve conv hwf hr hc r c false fill fillDT
-  obtain ⟨bs', h1, _, h3⟩ := tb.frameShift_general resolve conv hwf hr hc r c false fill fillDT
-  have hpos : 0 < (colsDT tb.blocks).length := by rw [← tb.ncols_eq_colsDT]; exact hc
-  have hbad' : ¬ ColShiftOk (colsDT tb.blocks).length c := by rw [← tb.ncols_eq_colsDT]; exact hbad
-  have hover := walkCols_overshoot (colsDT tb.blocks) c
-    (fillDT, List.replicate tb.rows (conv fillDT fillDT fill)) hpos hbad'
-  rw [← tb.ncols_eq_colsDT] at hover
-  constructor
-  · refine ⟨bs, g1, ?_⟩
-    rw [← colsDT_length, g3, List.length_map]; exact hover
-  · rw [h3, if_pos]
-    rw [h1, List.length_map]; omega
-
-/-- `Frame.shift` succeeds exactly for the column shifts of `ColShiftOk`. -/
-theorem shift_ok_iff (resolve : DT → DT → DT) (conv : DT → DT → α → α)
-    (tb : TB α) (hwf : tb.WF) (hr : 0 < tb.rows) (hc : 0 < tb.ncols)
-    (r c : Int) (fill : α) (fillDT : DT) :
-    (∃ res, tb.frameShift resolve conv r c false fill fillDT = .ok res) ↔ ColShiftOk tb.ncols c := by
-  constructor
-  · intro ⟨res, h⟩
-    by_cases hok : ColShiftOk tb.ncols c
-    · exact hok
-    · rw [(shift_overshoot resolve conv tb hwf hr hc r c fill fillDT hok).2] at h; cases h
-  · intro hok
-    obtain ⟨res, h, _⟩ := shift_refines resolve conv tb hwf hr hc r c false fill fillDT (Or.inr hok)
-    exact ⟨res, h⟩
-
-/-- The full statement (shifting refines the specification for ALL column shifts) is FALSE for the
-    code as it is: 3 columns, `Frame.shift(columns=4)` — the generator yields blocks of widths
-    3 + 2 = 5 and the Frame constructor raises ErrorInitFrame, where the specification is the
-    all-fill frame.  (Replayed on the real code: see the report / `findings`.) -/
-theorem shift_refines_counterexample :
-    ¬ (∀ (tb : TB Nat) (c : Int), tb.WF → 0 < tb.rows → 0 < tb.ncols →
-        ∃ res, tb.frameShift resEx convEx 0 c false 0 "i" = .ok res ∧
-          res.dtypes.zip res.cols = shiftColsSpec resEx convEx tb.rows (tb.dtypes.zip tb.cols) 0 c false 0 "i") := by
-  intro h
-  obtain ⟨res, h1, _⟩ := h tbS 4 tbS_wf (by decide) (by decide)
-  have : tbS.frameShift resEx convEx 0 4 false 0 "i" = .error .init := by decide
-  rw [this] at h1; cases h1
-
-/-- the counterexample in the open: widths 3 + 1 + 1 for `k = 4`, 2 + 3 + … for `k = -3` (= `-n`) -/
-theorem shift_overshoot_examples :
-    (tbS.shiftBlocks resEx convEx 0 4 false 0 "i").map (List.map Block.width) = .ok [3, 1, 1] ∧
-    (tbS.shiftBlocks resEx convEx 0 (-3) false 0 "i").map (List.map Block.width) = .ok [1, 2, 3] ∧
-    tbS.frameShift resEx convEx 0 (-3) false 0 "i" = .error .init ∧
-    (tbS.frameShift resEx convEx 0 6 false 0 "i").map TB.cols = .ok [[0, 0], [0, 0], [0, 0]] ∧
-    ¬ ColShiftOk 3 4 ∧ ¬ ColShiftOk 3 (-3) ∧ ColShiftOk 3 6 := by decide
-
-/-- BOUNDARY DEFECT (zero-sized axes): with no row or no column `_shift_blocks` raises
-    ZeroDivisionError for every call, also `roll(0, 0)` / `shift(0, 0)`. -/
+/-- BOUNDARY DEFECT (zero-sized axes, NOT repaired in /repo): with no row or no column
+    `_shift_blocks` raises ZeroDivisionError for every call, also `roll(0, 0)` / `shift(0, 0)`. -/
 theorem shift_zero_axis (resolve : DT → DT → DT) (conv : DT → DT → α → α)
     (tb : TB α) (h : tb.rows = 0 ∨ tb.ncols = 0) (r c : Int) (wrap : Bool) (fill : α) (fillDT : DT) :
     tb.shiftBlocks resolve conv r c wrap fill fillDT = .error .other ∧
     tb.frameShift resolve conv r c wrap fill fillDT = .error .other := by
-  have h1 := tb.shiftBlocks_zero_axis resolve conv h r c wrap fill fillDT
+  have h1 := tb.shiftBlocks_zero_axis resolve conv true h r c wrap fill fillDT
   refine ⟨h1, ?_⟩
-  unfold TB.frameShift; rw [h1]
+  unfold TB.frameShift TB.frameShiftGen; rw [h1]
 
 example : (TB.mk 0 [Block.d1 "i" ([] : List Nat)]).WF ∧
     (TB.mk 0 [Block.d1 "i" ([] : List Nat)]).frameShift resEx convEx 0 0 true 0 "i" = .error .other :=
   ⟨by simp [TB.WF, Block.RowsOk, Block.colsOf, Block.width], by decide⟩
 
 /-- THE PROPERTY (C03) for roll / shift, at full strength: two layouts of the same logical frame
-    (equal columns, dtypes and row count) give the same outcome for ALL `r`, `c`, `wrap` — equal
-    columns and dtypes on success, the same exception otherwise (also in the over-shift and
-    zero-axis cases). -/
+    (equal columns, dtypes and row count) give the same outcome for ALL `r`, `c`, `wrap` and all
+    sizes — equal columns and dtypes on success, the same exception on zero-sized axes. -/
 theorem layout_unobservable_shift (resolve : DT → DT → DT) (conv : DT → DT → α → α)
     (a b : TB α) (ha : a.WF) (hb : b.WF)
     (hc : a.cols = b.cols) (hd : a.dtypes = b.dtypes) (hr : a.rows = b.rows)
@@ -268,9 +202,10 @@ theorem layout_unobservable_shift (resolve : DT → DT → DT) (conv : DT → DT
       (shift_zero_axis resolve conv b (by rw [← hr, ← hn]; exact hz) r c wrap fill fillDT).2]
   · have hra : 0 < a.rows := by omega
     have hca : 0 < a.ncols := by omega
-    obtain ⟨bsa, a1, _, a3⟩ := a.frameShift_general resolve conv ha hra hca r c wrap fill fillDT
-    obtain ⟨bsb, b1, _, b3⟩ := b.frameShift_general resolve conv hb (by omega) (by omega) r c wrap fill fillDT
+    obtain ⟨bsa, _, a1, _, a3⟩ := a.frameShift_general resolve conv true ha hra hca r c wrap fill fillDT
+    obtain ⟨bsb, _, b1, _, b3⟩ := b.frameShift_general resolve conv true hb (by omega) (by omega) r c wrap fill fillDT
     have hbs : colsDT bsa = colsDT bsb := by rw [a1, b1, hcd, hr]
+    unfold TB.frameShift
     rw [a3, b3, hbs, hn]
     split
     · rfl
@@ -282,6 +217,105 @@ example : tbS.WF ∧ tbS'.WF ∧ tbS.cols = tbS'.cols ∧ tbS.dtypes = tbS'.dtyp
     (tbS.frameShift resEx convEx 1 2 false 0 "i").map TB.cols = .ok [[0, 0], [0, 0], [0, 1]] ∧
     (tbS'.frameShift resEx convEx 1 2 false 0 "i").map TB.cols = .ok [[0, 0], [0, 0], [0, 1]] :=
   ⟨tbS_wf, tbS'_wf, by decide, by decide, rfl, by decide, by decide⟩
+
+/-! ### the pinned code (before /repo commit ad4f5b0): the repaired defect F75
+
+`TB.shiftBlocksPinned` keeps the remaining head / tail next to the full-width fill block. These
+theorems record what was wrong and that the old side condition `ColShiftOk` was exact; the
+repaired code needs no side condition (`shift_refines`). -/
+
+/-- for `wrap = False` and every column shift outside `ColShiftOk` (`c ≤ -n`, or `c > n` not a
+    multiple of `n`) the pinned generator yielded MORE than `n` columns, for every layout, and
+    `Frame.shift` raised ErrorInitFrame. -/
+theorem shiftPinned_overshoot (resolve : DT → DT → DT) (conv : DT → DT → α → α)
+    (tb : TB α) (hwf : tb.WF) (hr : 0 < tb.rows) (hc : 0 < tb.ncols)
+    (r c : Int) (fill : α) (fillDT : DT) (hbad : ¬ ColShiftOk tb.ncols c) :
+    (∃ bs, tb.shiftBlocksPinned resolve conv r c false fill fillDT = .ok bs ∧
+      tb.ncols < (bs.map Block.width).sum) ∧
+    tb.frameShiftPinned resolve conv r c false fill fillDT = .error .init := by
+  obtain ⟨bs, g1, h1, _, h3⟩ := tb.frameShift_general resolve conv false hwf hr hc r c false fill fillDT
+  have hpos : 0 < (colsDT tb.blocks).length := by rw [← tb.ncols_eq_colsDT]; exact hc
+  have hbad' : ¬ ColShiftOk (colsDT tb.blocks).length c := by rw [← tb.ncols_eq_colsDT]; exact hbad
+  have hover := walkCols_overshoot_pinned (colsDT tb.blocks) c
+    (fillDT, List.replicate tb.rows (conv fillDT fillDT fill)) hpos hbad'
+  rw [← tb.ncols_eq_colsDT] at hover
+  constructor
+  · refine ⟨bs, g1, ?_⟩
+    rw [← colsDT_length, h1, List.length_map]; exact hover
+  · unfold TB.frameShiftPinned
+    rw [h3, if_pos]
+    rw [h1, List.length_map]; omega
+
+/-- the pinned `Frame.shift` succeeded exactly for the column shifts of `ColShiftOk` -/
+theorem shiftPinned_ok_iff (resolve : DT → DT → DT) (conv : DT → DT → α → α)
+    (tb : TB α) (hwf : tb.WF) (hr : 0 < tb.rows) (hc : 0 < tb.ncols)
+    (r c : Int) (fill : α) (fillDT : DT) :
+    (∃ res, tb.frameShiftPinned resolve conv r c false fill fillDT = .ok res) ↔ ColShiftOk tb.ncols c := by
+  constructor
+  · intro ⟨res, h⟩
+    by_cases hok : ColShiftOk tb.ncols c
+    · exact hok
+    · rw [(shiftPinned_overshoot resolve conv tb hwf hr hc r c fill fillDT hok).2] at h; cases h
+  · intro hok
+    obtain ⟨bs, _, h1, _, h3⟩ := tb.frameShift_general resolve conv false hwf hr hc r c false fill fillDT
+    have hpos : 0 < (colsDT tb.blocks).length := by rw [← tb.ncols_eq_colsDT]; exact hc
+    have hok' : ColShiftOk (colsDT tb.blocks).length c := by rw [← tb.ncols_eq_colsDT]; exact hok
+    have hlen : (colsDT bs).length = tb.ncols := by
+      rw [h1, List.length_map, walkCols_length_pinned_ok _ c false _ hpos (Or.inr hok'), ← tb.ncols_eq_colsDT]
+    refine ⟨⟨tb.rows, bs⟩, ?_⟩
+    unfold TB.frameShiftPinned
+    rw [h3, if_neg (by simp [hlen])]
+
+/-- inside `ColShiftOk` (and for rolling) the repair changes nothing -/
+theorem shiftPinned_agrees (resolve : DT → DT → DT) (conv : DT → DT → α → α)
+    (tb : TB α) (hwf : tb.WF) (hr : 0 < tb.rows) (hc : 0 < tb.ncols)
+    (r c : Int) (wrap : Bool) (fill : α) (fillDT : DT) (hok : wrap = true ∨ ColShiftOk tb.ncols c) :
+    (tb.frameShiftPinned resolve conv r c wrap fill fillDT).map (fun x => (x.cols, x.dtypes)) =
+    (tb.frameShift resolve conv r c wrap fill fillDT).map (fun x => (x.cols, x.dtypes)) := by
+  obtain ⟨bsp, _, p1, _, p3⟩ := tb.frameShift_general resolve conv false hwf hr hc r c wrap fill fillDT
+  obtain ⟨bsr, _, q1, _, q3⟩ := tb.frameShift_general resolve conv true hwf hr hc r c wrap fill fillDT
+  have hpos : 0 < (colsDT tb.blocks).length := by rw [← tb.ncols_eq_colsDT]; exact hc
+  have hok' : wrap = true ∨ ColShiftOk (colsDT tb.blocks).length c := by rw [← tb.ncols_eq_colsDT]; exact hok
+  have hw : walkCols false (colsDT tb.blocks) c wrap (fillDT, List.replicate tb.rows (conv fillDT fillDT fill)) =
+      walkCols true (colsDT tb.blocks) c wrap (fillDT, List.replicate tb.rows (conv fillDT fillDT fill)) := by
+    cases wrap with
+    | true => rw [walkCols_roll false _ c _ hpos, walkCols_roll true _ c _ hpos]
+    | false =>
+      rcases hok' with h | h
+      · cases h
+      · rw [walkCols_shift_pinned _ c _ hpos h, walkCols_shift _ c _ hpos]
+  have hbs : colsDT bsp = colsDT bsr := by rw [p1, q1, hw]
+  unfold TB.frameShiftPinned TB.frameShift
+  rw [p3, q3, hbs]
+  split
+  · rfl
+  · simp only [Except.map]
+    rw [TB.cols_eq_colsDT, TB.cols_eq_colsDT, TB.dtypes_eq_colsDT, TB.dtypes_eq_colsDT]
+    simp only [hbs]
+
+/-- The refinement statement was FALSE for the pinned code: 3 columns, `Frame.shift(columns=4)` —
+    the generator yielded blocks of widths 3 + 1 + 1 = 5 and the Frame constructor raised
+    ErrorInitFrame, where the specification (and the repaired code) give the all-fill frame. -/
+theorem shiftPinned_overshoot_counterexample :
+    ¬ (∀ (tb : TB Nat) (c : Int), tb.WF → 0 < tb.rows → 0 < tb.ncols →
+        ∃ res, tb.frameShiftPinned resEx convEx 0 c false 0 "i" = .ok res ∧
+          res.dtypes.zip res.cols = shiftColsSpec resEx convEx tb.rows (tb.dtypes.zip tb.cols) 0 c false 0 "i") := by
+  intro h
+  obtain ⟨res, h1, _⟩ := h tbS 4 tbS_wf (by decide) (by decide)
+  have : tbS.frameShiftPinned resEx convEx 0 4 false 0 "i" = .error .init := by decide
+  rw [this] at h1; cases h1
+
+/-- the counterexample in the open: widths 3 + 1 + 1 for `k = 4`, 1 + 2 + 3 for `k = -3` (= `-n`);
+    next to it what the code yields today -/
+theorem shiftPinned_overshoot_examples :
+    (tbS.shiftBlocksPinned resEx convEx 0 4 false 0 "i").map (List.map Block.width) = .ok [3, 1, 1] ∧
+    (tbS.shiftBlocksPinned resEx convEx 0 (-3) false 0 "i").map (List.map Block.width) = .ok [1, 2, 3] ∧
+    tbS.frameShiftPinned resEx convEx 0 (-3) false 0 "i" = .error .init ∧
+    (tbS.frameShiftPinned resEx convEx 0 6 false 0 "i").map TB.cols = .ok [[0, 0], [0, 0], [0, 0]] ∧
+    ¬ ColShiftOk 3 4 ∧ ¬ ColShiftOk 3 (-3) ∧ ColShiftOk 3 6 ∧
+    (tbS.shiftBlocks resEx convEx 0 4 false 0 "i").map (List.map Block.width) = .ok [3] ∧
+    (tbS.shiftBlocks resEx convEx 0 (-3) false 0 "i").map (List.map Block.width) = .ok [3] ∧
+    (tbS.frameShift resEx convEx 0 (-3) false 0 "i").map TB.cols = .ok [[0, 0], [0, 0], [0, 0]] := by decide
 
 /-! ### `Series.roll` / `Series.shift` -/
 
